@@ -888,12 +888,13 @@ func nNewTimer(x *Exec, t *Thread, a []Value, c *callCtx) (Value, nativeStatus) 
 		// the clock has reached the due time
 		if x.P.Cfg.PromptClock {
 			// prompt environment: the earliest timer fires, exactly when due (or now, if that is later); 1 ns passes
+			npc := len(x.pc)
 			for _, o := range x.timers {
 				if o != tm && o.armed {
 					x.assume(x.F.Cmp(OpSle, tm.due, o.due))
 				}
 			}
-			if x.check(nil) != Sat {
+			if len(x.pc) > npc && x.check(nil) != Sat {
 				x.end("infeasible", "")
 			}
 			cur := x.readClock()
